@@ -26,6 +26,7 @@
   printed lines *with their field payloads* (`strLines`).
 -/
 import DfolsVerif.Proofs.Json
+import DfolsVerif.Proofs.JsonFields
 
 namespace Dfols
 namespace C20
@@ -193,6 +194,35 @@ theorem C20_old_obj_none :
 /-- the pinned loader is fine whenever `obj` is a number (the defect is exactly the NaN case) -/
 example : ((dumpsLoads true (toDict true exEarly)).bind fromDictOld).map (·.obj) = some (some (.inf false)) := by
   decide
+
+/-! ### layer G: the wiring of `OptimResults`, regenerated from solver.py on every run -/
+
+/-- the keys of the model's `to_dict`, in order -/
+def modelKeys (r : ResultRec) : List String :=
+  match toDictRaw r with
+  | .obj kvs => kvs.filterMap fun kv => match kv.1 with | .s k => some k | _ => none
+  | _ => []
+
+/-- **the model writes the keys the code writes**, in the same order (the code's list is generated from the AST of
+    `OptimResults.to_dict`) -/
+theorem C20_src_keys (r : ResultRec) : modelKeys r = Gen.toDictWrites.map (·.1) := by
+  simp [modelKeys, toDictRaw, Gen.toDictWrites]
+
+/-- **the round trip is wired to the identity in the source**: every attribute `to_dict` writes under a key comes back,
+    through the local variable `from_dict` reads that key into, the position of that variable in the constructor call,
+    and the constructor's assignment of that parameter, as the SAME attribute (`diagnostic_info`: set after
+    construction); `to_dict` writes and `from_dict` reads the same keys, each once; the written and the read conversion of
+    every key belong together (float arrays / the integer array / `None → NaN` objective / integers / message — the field
+    kinds of the record model); and `__str__` reads only attributes the constructor binds. -/
+theorem C20_src_roundtrip_wiring :
+    (∀ w ∈ Gen.toDictWrites, JsonFields.attrAfterRoundTrip w.1 = some w.2.1) ∧
+    (∀ w ∈ Gen.toDictWrites, w.1 ∈ Gen.fromDictKeysRead) ∧
+    (∀ k ∈ Gen.fromDictKeysRead, k ∈ Gen.toDictWrites.map (·.1)) ∧
+    (Gen.toDictWrites.map (·.1)).Nodup ∧
+    (∀ r ∈ Gen.fromDictReads, ∃ w ∈ Gen.toDictWrites, w.1 = r.1 ∧ (w.2.2, r.2.2) ∈ JsonFields.pairedConversions) ∧
+    (∀ a ∈ Gen.strReads, a ∈ Gen.ctorAssigns.map (·.1) ∨ a ∈ Gen.ctorOther.map (·.1)) :=
+  ⟨JsonFields.roundtrip_wiring, JsonFields.same_keys.1, JsonFields.same_keys.2.1, JsonFields.same_keys.2.2.1,
+   JsonFields.conversions_paired.1, JsonFields.str_reads_bound⟩
 
 end C20
 end Dfols
